@@ -40,6 +40,12 @@ CHECKS.update({
          "Layout restrictions of the quantifier; plasmids up to ~300 bases; palindromic enzymes not generated.", "§5 C10"),
 })
 
+CHECKS.update({
+ "C13": ("bounded exhaustive enumeration of record lists x deviation-bounded layouts, plus stateless model checking of the streaming producer against a consumer task (all interleavings per channel capacity)",
+         "Every record list up to the stated length over names that look like headers/comments and sequences from empty to beyond a 64 KiB line is written by an independent writer under every combination of at most 2 (3 thorough) layout deviations (wrap width, blank lines, ';' comments, CRLF, missing final newline, gzip, reader chunking, Build text) and parsed by the real Parse; every pair of read boundaries of small files is enumerated; ParseConcurrent is run under the controlled scheduler with a consumer task for capacities 0,1,2,n,1000 and ALL interleavings are executed, checking records, order, single close, no deadlock.",
+         "gzip/bufio trusted; channel-operation granularity; lists longer than 3 records and names with leading/trailing blanks not generated.", "§5 C13"),
+})
+
 NOT_YET = {}
 
 props = [json.loads(l) for l in open('/verif/properties.jsonl')]
